@@ -16,7 +16,7 @@ func init() {
 		ID:     "C17",
 		Word32: true,
 		Level:  "exploration",
-		Rule: "E1 bounded-exhaustive enumeration: the C16 key sets (every non-empty sorted subset of the suffix-key universes behind each stem) × every maxSize in [1, len+1]; plus chains a, aa, aaa, ... of 33..258 keys and a 36-level directory tree (as many oversized ranges nested in one another as there are keys); plus two key sets of 1111 and 4161 keys with 25 maxSize values around powers of two; plus generated key lists of EVERY threshold size n = b-1, b, b+1 (b in 2^k, 3·2^k, 10^k, 2·10^k, 5·10^k) from 1000 up to 400001 keys (thorough: 2^20+1) in two styles × maxSize in {1,2,3,255,256,257,4096,n/2,n-1,n,n+1}. Oracle, clause by clause from the statement: boundaries start at 0, strictly increase and end at len; every shard holds ≤ maxSize keys; L[j] is the byte length of the longest common prefix of the shard computed by direct comparison (the key's own length for a single key); shard prefixes strictly ascending. " +
+		Rule: "E1 bounded-exhaustive enumeration: the C16 key sets (every non-empty sorted subset of the suffix-key universes behind each stem) × every maxSize in [1, len+1]; plus chains a, aa, aaa, ... of 33..258 keys and a 36-level directory tree (as many oversized ranges nested in one another as there are keys); plus two key sets of 1111 and 4161 keys with 25 maxSize values around powers of two; plus generated key lists of EVERY threshold size n = b-1, b, b+1 (b in 2^k, 3·2^k, 10^k, 2·10^k, 5·10^k) from 1000 up to 400001 keys (thorough: 2^20+1) in two styles × maxSize in {1,2,3,255,256,257,4096,n/2,n-1,n,n+1}. Oracle, clause by clause from the statement: boundaries start at 0, strictly increase and end at len; every shard holds ≤ maxSize keys; L[j] is the byte length of the longest common prefix of the shard computed by direct comparison (the key's own length for a single key); shard prefixes strictly ascending. LONG keys: eight keys around a shared stem of EVERY threshold length 81..70000 (thorough 2^20+1) bytes × every maxSize 1..9. " +
 			"A case is one call; non-trivial when the set has ≥3 keys and maxSize < len; key sets that re-occur in a later family are executed again but counted once.",
 		Assumptions: []string{"key sets are drawn from small byte alphabets behind fixed stems"},
 		Run:         c17Run,
@@ -178,6 +178,12 @@ func c17Big(c *mc.Ctx) {
 			}
 		}
 	}
+	// LONG keys: eight keys around a shared stem of every threshold length (c16GenKeys style 2) × every maxSize 1..9
+	for _, l := range c16LongStems(c) {
+		for m := 1; m <= 9; m++ {
+			jobs = append(jobs, job{l, 2, int32(m)})
+		}
+	}
 	c.Expect(int64(len(jobs)))
 	c.Par(len(jobs), func(ji int) {
 		if c.TooMany() {
@@ -195,7 +201,11 @@ func c17Big(c *mc.Ctx) {
 		}
 		c.Count(1, 1)
 		c.Add("generated_key_list_calls", 1)
-		c.Max("largest_key_list", int64(j.n))
+		if j.style == 2 {
+			c.Max("longest_shared_stem_bytes", int64(j.n))
+		} else {
+			c.Max("largest_key_list", int64(j.n))
+		}
 	})
 }
 
